@@ -152,6 +152,7 @@ def run(ctx):
         mc.append(("MC_Cors", "MC_Cors_sim.cfg", dict(workers=1, simulate="num=80", depth=16, name="mc-sim", timeout=1500)))
     gen = [("CorsGen", "Gen_Cors.cfg" if q else "Gen_Cors_deep.cfg", dict(workers=6, timeout=1500)),
            ("CorsGen", "Gen_Cors_mount.cfg" if q else "Gen_Cors_mount_deep.cfg", dict(workers=6, timeout=1500)),
+           ("CorsGen", "Gen_Cors_gate.cfg", dict(workers=4, timeout=1500, name="gen-gate")),
            ("CorsGen", "Gen_Cors_pol.cfg" if q else "Gen_Cors_pol_deep.cfg", dict(workers=4, timeout=1500)),
            ("CorsGen", "Gen_Cors_sim.cfg", dict(workers=1, simulate="num=%d" % (60 if q else 300), depth=14, name="gen-sim", timeout=1500))]
     pipeline(ctx, mc, gen, random_n=300 if q else 4000)
